@@ -776,6 +776,18 @@ class FakeSocket:
     def recv(self, n):
         return self.source.take(n)
 
+    def recv_into(self, buffer, nbytes=0):
+        d = self.source.take(nbytes or len(buffer))
+        k = 0
+        for x in d:
+            buffer[k] = x
+            k += 1
+        return k
+
+    def send(self, b):
+        self.sent.append(bytes(b))
+        return len(b)
+
     def sendall(self, b):
         self.sent.append(b)
 
@@ -1776,7 +1788,7 @@ def channel_transfer_ok(n_pre: int, nested: int, item) -> bool:
 
 def channel_forgotten_ok(kind: int, ending: int, n_items: int, item) -> bool:
     """One conversation on channel 1 of the initiating side, of `kind` 0 = queue receiver, 1 = callback,
-    2 = callback with endmarker, carrying n_items items (the symbolic `item`) and finished by `ending`:
+    2 = callback with endmarker, 3 = callback with endmarker registered only after everything arrived, carrying n_items items (the symbolic `item`) and finished by `ending`:
     0 local close; 1 peer close; 2 local object dropped, then peer close; 3 peer LAST_MESSAGE then local close;
     4 local close then (late) peer close; 5 peer close with error; 6 local object dropped only.
     Afterwards neither table of the gateway knows the id any more (6, callback kinds: the callback keeps
@@ -1799,6 +1811,18 @@ def channel_forgotten_ok(kind: int, ending: int, n_items: int, item) -> bool:
         ch.setcallback(seen.append)
     elif kind == 2:
         ch.setcallback(seen.append, endmarker=END)
+    elif kind == 3:
+        # the callback is registered late: after the items and the peer's close have arrived (endings 1 and 5 only)
+        if ending not in (1, 5):
+            return True
+        pump_frames(G, n_items + 1)
+        ch.setcallback(seen.append, endmarker=END)
+        if seen != [item] * n_items + [END]:
+            return False
+        if not ch.isclosed():
+            return False
+        drop_channel(G, ch)
+        return cid not in fac._callbacks and cid not in fac._channels and len(fac._callbacks) == 0 and len(fac._channels) == 0
     pump_frames(G, n_items)
     if ending == 0:
         ch.close()
@@ -2125,7 +2149,23 @@ def proxy_equivalence_ok(sub_msgs, to_sub, ctl_code, chunks) -> bool:
     pio = gio.ProxyIO(mx, FakeExecModel())
     for d in to_sub:
         pio.write(d)
-    pio.controlchan.send(ctl_code)          # what _controll() sends (its blocking receive() is answered below)
+    # the real master-side operation; its blocking wait for the answer is satisfied by queueing the answer the forwarder is going to
+    # give (the forwarder's real answer is checked further down)
+    expected = {gio.RIO_WAIT: 7, gio.RIO_KILL: None, gio.RIO_CLOSE_WRITE: None}.get(ctl_code, "sub-address")
+    pio.controlchan._items.put(expected)
+    try:
+        if ctl_code == gio.RIO_WAIT:
+            got = pio.wait()
+        elif ctl_code == gio.RIO_KILL:
+            got = pio.kill()
+        elif ctl_code == gio.RIO_CLOSE_WRITE:
+            got = pio.close_write()
+        else:
+            got = pio.remoteaddress
+    except Exception:
+        return False
+    if got != expected:
+        return False
     m_out = sent_frames(M)
     # ---- forwarder side: a real gateway fed with (spec, control channel, data..., control request)
     F = make_gateway(b"", startcount=2)
